@@ -163,13 +163,13 @@ def search(rep: C.Report, tier: str, broken):
             # origin and centre slope
             z0 = float(g.decompactify(np.array(0.0), np.array(0.0), np.array(0.0))[0])
             centre = p["wallCenter"] if kind == "grid3" else 0.0
-            if abs(z0 - centre) > 1e-9 * (abs(centre) + p["wallThickness"]):
+            if not abs(z0 - centre) <= 1e-09 * (abs(centre) + p['wallThickness']):
                 rep.violation(f"{kind}: compact origin not mapped to the wall centre", dict(info, z0=z0, centre=centre),
                               finding_key=f"C17:origin:{kind}")
             if kind == "grid3":
                 s0 = float(g.compactificationDerivatives(np.array(0.0), np.array(0.0), np.array(0.0))[0])
                 want = p["wallThickness"] / p["ratioPointsWall"]
-                if abs(s0 - want) > 1e-9 * want:
+                if not abs(s0 - want) <= 1e-09 * want:
                     rep.violation("grid3: slope at the centre is not wallThickness/ratioPointsWall",
                                   dict(info, slope=s0, expected=want), finding_key="C17:centre-slope")
             # inverse offered by the same object
@@ -177,7 +177,7 @@ def search(rep: C.Report, tier: str, broken):
             inner = np.abs(chis) < 0.99
             for nm, back in (("z", zc), ("pz", pzc), ("pp", ppc)):
                 err = np.max(np.abs(np.asarray(back)[inner] - chis[inner]))
-                if err > 1e-6:
+                if not err <= 1e-06:
                     rep.violation(f"{kind}.compactify does not undo decompactify in direction {nm} (max error {err:.3g})",
                                   dict(info, direction=nm, max_error=float(err)),
                                   finding_key=KEY_E if (kind == "grid3" and nm == "z") else f"C17:inverse:{kind}:{nm}")
